@@ -1,0 +1,27 @@
+// +build verif
+
+package pilosa
+
+import "sync/atomic"
+
+// VerifHook, when set (build tag "verif" only), is called at the named
+// instrumentation points. It may record an event, delay, block until a
+// controller releases it, or return a non-zero override value where the call
+// site documents one. It is used by the external runtime-verification harness
+// and is never set by the server itself.
+var verifHook atomic.Value // func(name string, a, b uint64) uint64
+
+// SetVerifHook installs (or, with nil, removes) the hook.
+func SetVerifHook(h func(name string, a, b uint64) uint64) {
+	if h == nil {
+		h = func(string, uint64, uint64) uint64 { return 0 }
+	}
+	verifHook.Store(h)
+}
+
+func verifPoint(name string, a, b uint64) uint64 {
+	if h, ok := verifHook.Load().(func(string, uint64, uint64) uint64); ok && h != nil {
+		return h(name, a, b)
+	}
+	return 0
+}
